@@ -296,6 +296,12 @@ func Contents(names []string) []Content {
 			b.Add(RootFile, P(J{"type": "object", "properties": J{"inner": simpleObj("inner"), "list": J{"type": "array", "items": simpleObj("listItem")}}}, "definitions", nm))
 			return LocalRef(nm)
 		})
+		// a self-recursive root definition named over the alphabet (its circular $ref survives Expand and must keep its target)
+		add("selfRecursiveLocalNamed["+nm+"]", "recursive", func(b *BundleSpec, s int) J {
+			b.Add(RootFile, P(J{"type": "object", "properties": J{"next": LocalRef(nm), "v": J{"type": "string"}}}, "definitions", nm))
+			b.Cyclic = true
+			return LocalRef(nm)
+		})
 		// a self-recursive auxiliary definition named over the alphabet (rebasing of its own $ref)
 		add("selfRecursiveAuxNamed["+nm+"]", "recursive-aux", func(b *BundleSpec, s int) J {
 			b.Add(AuxA, P(J{"type": "object", "properties": J{"next": J{"$ref": "#/definitions/" + EscName(nm)}, "v": J{"type": "string"}}}, "definitions", nm))
